@@ -24,7 +24,7 @@ COMPONENTS_STUB = ["UDP socket (SimSocket)", "name resolution", "module random o
 ASSUMPTIONS = ["the socket model (recvmsg/sendmsg/pktinfo) is faithful to Linux",
                "call_soon FIFO order of asyncio is kept; timers and arrivals at the same instant are processed arrivals first",
                "time comparisons use a tolerance of 1e-9 s"]
-EXPECTED_PROBES = ["piggyback_with_unknown_token", "request_cancelled_while_exchange_open", "mid_collision_with_peer_message", "giveup", "ack_tie", "ack_pre_eps", "ack_post_eps", "rst", "wrong_mid", "wrong_src",
+EXPECTED_PROBES = ["application_callback_raised", "piggyback_with_unknown_token", "request_cancelled_while_exchange_open", "mid_collision_with_peer_message", "giveup", "ack_tie", "ack_pre_eps", "ack_post_eps", "rst", "wrong_mid", "wrong_src",
                    "server_con", "mr0", "late_ack", "separate_response_during_other_exchange", "send_raised_for_a_retransmission"]
 
 KINDS = ["ack", "rst", "piggy", "piggy_wrongtoken", "wrongmid_ack", "wrongmid_rst", "wrongsrc_ack", "wrongsrc_rst", "wrongport_ack"]
